@@ -31,9 +31,9 @@ def main(tier):
     quick = tier == 'quick'
     d = V.rundir('c11')
     hl, = V.build(['h_life'])
-    n = 400 if quick else 8000
+    n = 1500 if quick else 8000
     # histories rich in pins: the same protocol specification, longer histories
-    hists, rg = LC.gen_histories(d, n * 3, 14 if quick else 20, V.seed())
+    hists, rg = LC.gen_histories(d, n * 3, 18 if quick else 20, V.seed())
     hists = [h for h in hists if any(o[0] == 2 for o in h) and any(o[0] == 13 for o in h)][:n]
     ev.add_tlc('history generation (simulation of Lifecycle)', rg)
     rnd = random.Random(V.seed())
@@ -64,21 +64,28 @@ def main(tier):
             def on_old_checkpoint(c):
                 return any(e['t'] == 1 and tuple(pt) not in pinpos and tuple(pt) in ever_cp.get(c['id'], set())
                            for e, pt in ((c['src'], c['raw'][0]), (c['dst'], c['raw'][-1])) if len(c['raw']) >= 2)
+            def strictly_inside(q):
+                sh = [z for z in x['shapes'] if z[0] == q['s']]
+                return bool(sh) and sh[0][1] < q['p'][0] < sh[0][3] and sh[0][2] < q['p'][1] < sh[0][4]
+            def off_pin_ends(c):
+                return [e for e, pt in ((c['src'], c['raw'][0]), (c['dst'], c['raw'][-1])) if len(c['raw']) >= 2 and e['t'] == 1 and tuple(pt) not in pinpos]
             if t == 'pin-end-not-on-a-free-pin-of-its-class':
+                offenders = [(c, e) for c in x['conns'] for e in off_pin_ends(c)]
                 if any(c['src']['t'] == 1 and c['dst']['t'] == 1 and c['src']['s'] == c['dst']['s'] for c in x['conns']):
                     key += ':a-connector-joins-two-pins-of-one-shape'
                 elif any(on_old_checkpoint(c) for c in x['conns']):
                     key += ':route-ends-on-a-checkpoint'
-                elif all(c['id'] in ever_cp for c in x['conns'] if (c['src']['t'] == 1 and tuple(c['raw'][0]) not in pinpos) or (c['dst']['t'] == 1 and tuple(c['raw'][-1]) not in pinpos)):
+                elif offenders and all(len({tuple(q['p']) for q in x['pins'] if q['s'] == e['s'] and q['c'] == e['c']}) < len([q for q in x['pins'] if q['s'] == e['s'] and q['c'] == e['c']]) for c, e in offenders):
+                    key += ':coincident-pins-of-one-class'
+                elif offenders and all(any(q['s'] == e['s'] and q['c'] == e['c'] and strictly_inside(q) for q in x['pins']) for c, e in offenders):
+                    key += ':class-has-a-pin-inside-its-shape'
+                elif offenders and all(c['id'] in ever_cp for c, e in offenders):
                     key += ':connector-with-checkpoints'
-            if t == 'checkpoints-not-visited-in-order' and x['mode'] == 0:
-                def inside_pin(e):
-                    if e['t'] != 1:
-                        return False
-                    sh = [q for q in x['shapes'] if q[0] == e['s']]
-                    return bool(sh) and sh[0][1] < e['p'][0] < sh[0][3] and sh[0][2] < e['p'][1] < sh[0][4]
-                if any(c.get('cps') and (inside_pin(c['src']) or inside_pin(c['dst'])) for c in x['conns']):
-                    key += ':polyline-connector-attached-to-a-pin-inside-its-shape'
+            if t == 'checkpoints-not-visited-in-order':
+                def on_inside_pin(e):
+                    return e['t'] == 1 and any(q['s'] == e['s'] and q['c'] == e['c'] and strictly_inside(q) for q in x['pins'])
+                if any(c.get('cps') and (on_inside_pin(c['src']) or on_inside_pin(c['dst'])) for c in x['conns']):
+                    key += ':connector-attached-to-a-pin-inside-its-shape'
             vd.violation(key, '%s after op %s of history %s (mode=%d buf=%d): %s' % (t, op, hists[hi], x['mode'], x['buf'], json.dumps(brief)[:900]),
                          {'ops': hists[hi], 'mode': x['mode'], 'opts': x['opts'], 'after_op': op, 'snapshot': brief})
     ev.cov['evaluations'] = len(recs)
